@@ -78,7 +78,11 @@ LzwCheck(x) == \A early \in {0, 1} :
                                                       ELSE LZ!ImplCodes(x, early, LzwBug)), early, x)
                  /\ (Len(x) <= 250 => LZ!RefIsEncodingOf(LZ!EncLiteralsClear(x, 7), early, x))
                  /\ (Len(x) <= 3000 => LZ!RefIsEncodingOf(LZ!EncLiteralsGrow(x, early), early, x))
-LZWOK == /\ st.part = "lzw" => LzwCheck(st.x)
+\* the deferred-clear encoder's stream means DeferredData (for the long inputs only)
+DeferredOK(x) == Len(x) >= 3845 =>
+                   \A early \in {0, 1} : LZ!RefIsEncodingOf(LZ!EncDeferredClear(x, early, 3, <<1, 2, 3>>), early,
+                                                             LZ!DeferredData(x, early, 3, <<1, 2, 3>>))
+LZWOK == /\ st.part = "lzw" => LzwCheck(st.x) /\ DeferredOK(st.x)
          /\ st.part = "lzwr" => LzwCheck(Expand(st.runs))
 
 (* ---- predictors: parameters chosen step by step, then the data *)
